@@ -221,9 +221,10 @@ Proof.
       eapply triple_of_pcu; [ | exact N0 | ds].
       apply quiet_pcu with (s1 := set_failing s0); [|apply pcu_finish].
       unfold quiet. split; [reflexivity | split; [reflexivity | intros ?; reflexivity]].
-    + inversion H; subst. eapply triple_trans; [exact T0|].
-      eapply triple_trans; [apply feed_class|].
-      eapply triple_of_pcu; [apply pcu_finish | apply neutral_after_feed; exact N0 | ds].
+    + destruct (Nat.eqb t rtid); inversion H; subst; (eapply triple_trans; [exact T0|]).
+      * eapply triple_of_pcu; [apply pcu_finish | exact N0 | ds].
+      * eapply triple_trans; [apply feed_class|].
+        eapply triple_of_pcu; [apply pcu_finish | apply neutral_after_feed; exact N0 | ds].
   - (* PW0 *)
     assert (neutral (pcof s t) = true) as N by (unfold pcof; rewrite Epc; reflexivity).
     apply class_of_triple.
